@@ -1106,3 +1106,78 @@ def _hill_post(st, interp, C, res):
 U_HILL = Unit("Formula.hill", F + "hill", _self_inputs(), _hill_post,
               contracts=dict(CALLEE, **{FORMULAS + ".formula": c_formula_from_dict}),
               replay={"module": "c19", "task": "replay"})
+
+
+# ==============================================================================  formula(): the other initializer kinds
+
+def c_hill_notation(interp, st, args, kw):
+    """_convert_to_hill_notation(atoms): a structure holding exactly the entries of the map, Hill ordered
+    (composition: eval family order_total + bounded hill; here only 'which function is called with what')"""
+    return VObj("HillOf", {"map": args[0]})
+
+
+def c_immutable_any(interp, st, args, kw):
+    return VObj("Immutable", {"of": args[0]})
+
+
+def _fk_inputs(kind):
+    def mk(st, interp):
+        use_state(st)
+        C = {"kind": kind}
+        if kind == "none":
+            arg = None
+        elif kind == "empty-string":
+            arg = ""
+        elif kind == "atom":
+            arg = ATOMS.new(st, "atom")
+            C["a"] = arg.expr
+        elif kind == "dict":
+            dom = st.fresh("d_dom", z3.ArraySort(T.Atom, z3.BoolSort()))
+            val = st.fresh("d_val", z3.ArraySort(T.Atom, z3.RealSort()))
+            arg = atoms_map(dom, val)
+            C["map"] = arg
+        elif kind == "sequence":
+            arg = SEQS.new(st, "seq")
+            arg.kind = "list"
+            C["seq"] = arg
+        C["arg"] = arg
+        d = st.fresh("density", z3.RealSort())
+        st.assume(d > 0)
+        C["density"] = d
+        return [arg], {"density": d, "name": "nm"}, C
+    return mk
+
+
+def _fk_post(st, interp, C, res):
+    if res.outcome == "raise":
+        st.oblige("never-raises for a valid initializer", False, kind="raises", info={"exc": res.exc})
+        return
+    r, kind = res.value, C["kind"]
+    ok = isinstance(r, VObj) and r.cls == "FormulaCtor"
+    st.oblige("post.builds a Formula", z3.BoolVal(ok))
+    if not ok:
+        return
+    s = r.attrs.get("structure")
+    if kind in ("none", "empty-string"):
+        st.oblige("post.empty initializer gives the empty structure", z3.BoolVal(isinstance(s, VTuple) and len(s.items) == 0))
+    elif kind == "atom":
+        good = isinstance(s, VTuple) and len(s.items) == 1 and isinstance(s.items[0], VTuple) and len(s.items[0].items) == 2 \
+            and isinstance(s.items[0].items[1], VSym)
+        st.oblige("post.formula(atom) is ((1, atom),)",
+                  z3.BoolVal(False) if not good else z3.And(to_real(s.items[0].items[0]) == 1, s.items[0].items[1].expr == C["a"]))
+    elif kind == "dict":
+        st.oblige("post.formula(dict) is the Hill-ordered structure of exactly that map",
+                  z3.BoolVal(isinstance(s, VObj) and s.cls == "HillOf" and s.attrs["map"] is C["map"]))
+    else:
+        st.oblige("post.formula(sequence) is the immutable copy of exactly that sequence",
+                  z3.BoolVal(isinstance(s, VObj) and s.cls == "Immutable" and s.attrs["of"] is C["seq"]))
+    st.oblige("post.density keyword is passed on", spec.eq_goal(interp, st, r.attrs.get("density"), C["density"]))
+    st.oblige("post.name keyword is passed on", z3.BoolVal(r.attrs.get("name") == "nm"))
+
+
+U_FORMULA_KINDS = [Unit("formula(%s)" % k, FORMULAS + ".formula", _fk_inputs(k), _fk_post,
+                        contracts={FORMULAS + ".Formula": c_formula_class, FORMULAS + "._convert_to_hill_notation": c_hill_notation,
+                                   FORMULAS + "._immutable": c_immutable_any},
+                        inline={CORE + ".isatom", FORMULAS + "._is_string_like"},
+                        replay={"module": "c02", "task": "replay"})
+                   for k in ("none", "empty-string", "atom", "dict", "sequence")]
